@@ -8,6 +8,8 @@ import GormModel.Gen.HookFacts
 import GormModel.Gen.Pipelines
 import GormModel.Gen.Misc
 import GormModel.Gen.Finishers
+import GormModel.Gen.VisitFacts
+import GormModel.Lemmas.HookVisit
 namespace Gorm
 open Gen
 
@@ -367,5 +369,107 @@ theorem C13_no_error_value_tests :
 
 example : (ErrV.wrap (.sentinel "gorm.ErrRecordNotFound")).is "gorm.ErrRecordNotFound" = true := by decide
 example : txDecision (fun a => a == "ok") (some (.join (.plain 1) (.sentinel "gorm.ErrRecordNotFound"))) = ["db.Rollback"] := by decide
+
+/-! ## Round 3 — association GRAPHS (shared in-memory records) and the visit map
+
+  `Gorm.VGraph.run` (Model/HookVisit.lean) transcribes loadOrStoreVisitMap, checkAssociationsSaved, saveAssociations and the
+  pipeline order of the nested Creates; it is tied to the real code on generated graphs (suite `graphs`: recorded
+  hook / statement log with statement identities vs `VGraph.run`). -/
+
+/-- loadOrStoreVisitMap over a record list: "loaded" iff EVERY element was registered before; afterwards all are -/
+theorem C13_loadOrStore_spec (V es : List Nat) :
+    (loadOrStore V es).1 = es.all (fun e => V.contains e) ∧
+    ∀ x, x ∈ (loadOrStore V es).2 ↔ x ∈ es ∨ x ∈ V :=
+  ⟨loadOrStore_loaded V es, fun x => loadOrStore_mem V es x⟩
+
+/-- checkAssociationsSaved: with or without a visit map in the Settings, a non-empty record list is answered
+    "saved" iff all its records are registered, and afterwards all of them ARE registered (the "no map yet" branch
+    registers them too — the branch a seeded fault emptied) -/
+theorem C13_checkSaved_spec (es : List Nat) (v : Option (List Nat)) (hne : es ≠ []) :
+    (checkSaved es v).1 = es.all (fun e => (v.getD []).contains e) ∧
+    (checkSaved es v).2.isSome = true ∧
+    ∀ x, x ∈ (checkSaved es v).2.getD [] ↔ x ∈ es ∨ x ∈ v.getD [] :=
+  ⟨checkSaved_loaded es v hne, checkSaved_isSome es v, fun x => checkSaved_mem es v x⟩
+
+/-- for EVERY finite association graph (any sharing, any cycles) the traversal terminates: fuel `size + 1` is never
+    exhausted (induction on the number of unregistered records) -/
+theorem C13_visit_terminates (g : VGraph) (roots existing : List Nat) : (g.run roots existing).ok = true :=
+  visit_terminates g roots existing
+
+/-- every record reachable from the operation's value through association fields is saved (its before-hooks fire)
+    at least once -/
+theorem C13_visit_complete (g : VGraph) (roots existing : List Nat) (n : Nat) :
+    VReach g roots n → 1 ≤ saveCount n (g.run roots existing).log :=
+  visit_complete g roots existing n
+
+/-- nothing else is saved -/
+theorem C13_visit_sound (g : VGraph) (roots existing : List Nat) (n : Nat) (hslots : g.nbefore ≤ g.nslots) :
+    1 ≤ saveCount n (g.run roots existing).log → VReach g roots n :=
+  visit_sound g roots existing n hslots
+
+/-- the after-hooks of a record fire exactly as often as its before-hooks (failure-free run) -/
+theorem C13_visit_balanced (g : VGraph) (roots existing : List Nat) (n : Nat) :
+    afterCount n (g.run roots existing).log = saveCount n (g.run roots existing).log :=
+  visit_balanced g roots existing n
+
+/-- F27 (mixed record list), F28 (a record of the operation's own value is reachable again), F29 (the same new
+    record twice in one list): the unchanged code fires a record's hooks twice -/
+theorem C13_visit_mixed_counterexample :
+    saveCount 2 (visitG2.run [0] []).log = 2 ∧ (visitG2.run [0] []).clean = false := visit_mixed_counterexample
+theorem C13_visit_backpointer_counterexample :
+    saveCount 0 (visitG3.run [0] []).log = 2 ∧ (visitG3.run [0] []).clean = false := visit_backpointer_counterexample
+theorem C13_visit_duplicate_counterexample :
+    saveCount 1 (visitG4.run [0] []).log = 2 ∧ (visitG4.run [0] []).clean = false := visit_duplicate_counterexample
+
+/-- EXACTLY ONCE per in-memory record, for every finite association graph on which none of the three listed patterns
+    occurs (`clean`: every executed association record list was duplicate-free, disjoint from the registered records
+    and from the operation's own value): each reachable record's before-hooks and after-hooks fire exactly once, every
+    other record's never. -/
+theorem C13_visit_once_partial (g : VGraph) (roots existing : List Nat)
+    (hr : roots.Nodup) (hc : (g.run roots existing).clean = true) (n : Nat) :
+    (VReach g roots n → saveCount n (g.run roots existing).log = 1 ∧ afterCount n (g.run roots existing).log = 1) ∧
+    (g.nbefore ≤ g.nslots → ¬ VReach g roots n → saveCount n (g.run roots existing).log = 0) := by
+  constructor
+  · intro h
+    have h1 := visit_complete g roots existing n h
+    have h2 := visit_at_most_once g roots existing hr hc n
+    have h3 := visit_balanced g roots existing n
+    omega
+  · intro hs h
+    refine Nat.eq_zero_of_not_pos (fun hpos => h (visit_sound g roots existing n hs hpos))
+
+/-- non-vacuity: a diamond (root → {b, c}, b → c) is clean and c is saved once -/
+example : (visitG1.run [0] []).clean = true ∧ saveCount 2 (visitG1.run [0] []).log = 1 := visit_diamond_example
+
+/-- regenerated: on the path of checkAssociationsSaved that stores a NEW visit map in the Settings, the records being
+    saved have been registered in that very map -/
+theorem C13_visit_map_registered_before_stored :
+    ∀ p ∈ checkSavedPaths, ∀ c ∈ p.calls, c.fn = "db.Set" →
+      ∃ r ∈ p.calls, r.fn = "loadOrStoreVisitMap" ∧ r.args = [c.args.getD 1 "", checkSavedParams.getD 1 ""] := by
+  decide
+
+/-- regenerated: every path registers the records (the only exception: the Settings entry is not a *visitMap) -/
+theorem C13_visit_every_path_registers :
+    ∀ p ∈ checkSavedPaths,
+      (∃ r ∈ p.calls, r.fn = "loadOrStoreVisitMap" ∧ r.args.getD 1 "" = checkSavedParams.getD 1 "") ∨
+      (false, "v, ok := visit.(*visitMap); ok") ∈ p.conds := by
+  decide
+
+/-- regenerated: "already saved" is answered only on the path where a map was found and loadOrStoreVisitMap said so -/
+theorem C13_visit_skip_only_when_loaded :
+    ∀ p ∈ checkSavedPaths, p.ret = "false" ∨
+      (p.ret = "true" ∧ (true, "loadOrStoreVisitMap(v, values)") ∈ p.conds ∧
+        (true, "visit, ok := db.Get(visitMapStoreKey); ok") ∈ p.conds) := by
+  decide
+
+/-- regenerated: saveAssociations consults the guard first, on its own record list, hands the Settings (hence the
+    visit map) to the nested handle before the nested Create of exactly those records; no other record-writing call in
+    callbacks/associations.go (the join-table rows apart) -/
+theorem C13_assoc_creates_guarded :
+    saveAssociationsStmts =
+      [("guard", "db, rValues => return nil"), ("values-def", "rValues.Interface()"),
+       ("settings-copy", "db.Statement.Settings -> tx.Statement.Settings"), ("create", "tx.Create(values)")] ∧
+    assocWriteCalls = [("SaveAfterAssociations", "Create(joins.Interface())"), ("saveAssociations", "Create(values)")] := by
+  decide
 
 end Gorm
